@@ -12,7 +12,9 @@ TIMEOUT = 240
 BUDGET = {"quick": 150, "thorough": 1500}
 RULE = ("Seeded stratified random stateless bundle programs (literals with constant / input / computed / nested "
         "members, each-arithmetic with constant and signal scalars, filters with copy and constant outputs, "
-        "gating, any/all, selection, chains) compiled by the real compiler and executed in the circuit model "
+        "gating, any/all with constant and signal thresholds, selection, chains, and compositional expressions: anonymous "
+        "literals / intermediate results as operands, selections as scalars / thresholds / conditions / literal "
+        "members, int variables, literal-left and compound conditions) compiled by the real compiler and executed in the circuit model "
         "for boundary-biased valuations including zero and negative members; the WHOLE signal map on every "
         "named bundle's output anchor is compared for equality with the reference map (so leaked or altered "
         "members are visible), scalar results by their own signal. Non-trivial: some compared result non-zero; "
